@@ -12,8 +12,8 @@ Shape of the result:
   * `Includes` (command line expansion, visibility, exclude, experimental dirs): exact — proved.
   * `Matches` `...` (sandbox whitelist): exact for every pattern package other than "." — proved for the
     repaired code (fix of `matches-string-prefix`); "." still matches everything (known finding, witness).
-  * sandbox experimental dirs: exact iff the corresponding fact says "by component"; otherwise a witness and
-    the exact characterisation of what is accepted.
+  * sandbox opt-out (`validateSandbox`): exact (`C20_sandbox_exact`, repaired code: fix of
+    `sandbox-experimental-string-prefix`) for whitelists that do not use the pattern package ".".
   * round trip: proved for every parse result whose name is validated, that is not the `_ORIGINAL` sentinel
     and whose subrepo has no trailing '/'; each of the three exceptions has a witness.
 -/
@@ -24,7 +24,7 @@ abbrev facts : Facts := generatedFacts
 
 /-- What the proofs need from the regenerated facts. -/
 def CoreOK : Bool :=
-  facts.includesSlash && facts.matchesSlash &&
+  facts.includesSlash && facts.matchesSlash && facts.sandboxExpSlash &&
   (facts.pkgBad.contains ':' && !facts.pkgBad.contains '/' && !facts.pkgBad.contains '.')
 
 /-- Syntactic facts that pin the parts of the code the model hard-codes (dispatch literals, which
@@ -45,7 +45,7 @@ def ShapeOK : Bool :=
   C20.matchesLits == (if C20.matchesDot then ["", ".", "...", "/", "all"] else ["", "...", "/", "all"]) && C20.matchesUsesParent &&
   C20.isExperimentalUsesIncludes && C20.isExperimentalChecksSubrepo && C20.experimentalLabelName == "..." &&
   C20.sandboxWhitelistMethod == "Matches" &&
-  C20.sandboxLits == ["%v is not whitelisted to opt out of the sandbox", "_please"]
+  C20.sandboxLits == ["", "%v is not whitelisted to opt out of the sandbox", "/", "_please"]
 
 /-- Side condition on the regenerated facts (decidable). -/
 def FactsOK : Bool := CoreOK && ShapeOK
@@ -61,10 +61,17 @@ theorem coreOK : CoreOK = true := by
 theorem includesSlash_ok : facts.includesSlash = true := by
   have h := coreOK
   simp only [CoreOK, Bool.and_eq_true] at h
-  exact h.1.1
+  exact h.1.1.1
 
 /-- `Matches` tests `//p/...` by path component (since the fix of `matches-string-prefix`). -/
 theorem matchesSlash_ok : facts.matchesSlash = true := by
+  have h := coreOK
+  simp only [CoreOK, Bool.and_eq_true] at h
+  exact h.1.1.2
+
+/-- `validateSandbox` tests experimental directories by path component (since the fix of
+    `sandbox-experimental-string-prefix`). -/
+theorem sandboxExpSlash_ok : facts.sandboxExpSlash = true := by
   have h := coreOK
   simp only [CoreOK, Bool.and_eq_true] at h
   exact h.1.2
@@ -258,14 +265,49 @@ theorem C20_sandbox_exact_of_component_tests (hs : facts.matchesSlash = true) (h
         simpa using h
   · exact Or.inr (Or.inr ⟨d, hd', (sbxDirTest_slash he _ _).mp h⟩)
 
-/-- What is accepted on a tree with raw prefix tests: the exact characterisation (by `validateSandbox_iff`). -/
+/-- The experimental-directory exemption of `validateSandbox` applies exactly to the packages under a
+    configured directory (repaired code). -/
+theorem C20_sandbox_experimental_exact (pkg d : Str) : sbxDirTest facts pkg d = true ↔ Under d pkg :=
+  sbxDirTest_slash sandboxExpSlash_ok pkg d
+
+example : sbxDirTest facts "expfoo".toList "exp".toList = false ∧ sbxDirTest facts "exp/foo".toList "exp".toList = true := by
+  decide
+
+/-- The property for the sandbox opt-out (repaired code): it is accepted exactly for the documented targets,
+    for every whitelist that does not use the pattern package "." (known finding `matches-dot-package-matches-all`). -/
+theorem C20_sandbox_exact (wl : List Label) (dirs : List Str) (t : SbxTarget)
+    (hdot : ∀ w ∈ wl, w.name = dots → w.pkg ≠ ['.']) :
+    validateSandbox facts wl dirs t = true ↔ SandboxSpec wl dirs t := by
+  refine ⟨fun h => ?_, C20_sandbox_complete wl dirs t⟩
+  rw [validateSandbox_iff] at h
+  rcases h with h | ⟨w, hw, h⟩ | ⟨d, hd', h⟩
+  · exact Or.inl h
+  · refine Or.inr (Or.inl ⟨w, hw, ?_⟩)
+    unfold SpecMatches
+    by_cases h1 : w.name = dots
+    · simp only [h1, if_true]
+      have hp := hdot w hw h1
+      cases w; cases hl : t.label; rw [hl] at h; simp only at h1 hp; subst h1
+      exact (C20_matches_subtree_exact _ _ _ _ _ hp).mp h
+    · by_cases h2 : w.name = allName
+      · simp only [h1, h2, if_true, if_false]
+        cases w; cases hl : t.label; rw [hl] at h; simp only at h2; subst h2
+        exact (C20_matches_all_exact _ _ _ _ _).mp h
+      · simp only [h1, h2, if_false]
+        have e1 : (w.name == dots) = false := by simpa using h1
+        have e2 : (w.name == allName) = false := by simpa using h2
+        simp only [matchesF, e1, e2] at h
+        simpa using h
+  · exact Or.inr (Or.inr ⟨d, hd', (C20_sandbox_experimental_exact _ _).mp h⟩)
+
+/-- What is accepted, in terms of the two tests (by `validateSandbox_iff`). -/
 theorem C20_sandbox_characterisation (wl : List Label) (dirs : List Str) (t : SbxTarget) :
     validateSandbox facts wl dirs t = true ↔
       sbxExempt wl t = true ∨ (∃ w ∈ wl, matchesF facts w t.label = true) ∨
         (∃ d ∈ dirs, sbxDirTest facts t.label.pkg d = true) := validateSandbox_iff facts wl dirs t
 
-/-- Witness (class `sandbox-experimental-string-prefix`): with experimental dir `exp`, an unsandboxed target in
-    the sibling package `expfoo` is allowed to opt out although nothing whitelists it. -/
+/-- Witness of the repaired defect (class `sandbox-experimental-string-prefix`), conditional on the OLD fact value:
+    with experimental dir `exp`, an unsandboxed target in the sibling package `expfoo` was allowed to opt out. -/
 theorem C20_witness_sandbox_experimental (he : facts.sandboxExpSlash = false) :
     ∃ (wl : List Label) (dirs : List Str) (t : SbxTarget),
       validateSandbox facts wl dirs t = true ∧ ¬ SandboxSpec wl dirs t := by
